@@ -121,6 +121,7 @@ class Agg(object):
             self.notes.append({'job': job.get('name', '?'), 'note': note})
             return
         self.evals += res.get('evals', 0)
+        self.extra.setdefault('job_wall_s', {})[job.get('name', '?')] = res.get('job_wall_s')
         self.nontrivial.update(res.get('nontrivial', ()))
         self.fails.extend(res.get('fails', ()))
         for s in res.get('samples', ()):
@@ -162,6 +163,19 @@ def decide(pid, checker, agg, tier, seed, t0):
         else:
             hit.setdefault(f['id'], [f, 0, fl])[1] += 1
     inconclusive = []
+    # the checker's own cross-job decision step runs first: it may compute the non-trivial set and add fails
+    fin = getattr(checker, 'finish', None)
+    extra_cov = {}
+    if fin:
+        r = fin(agg, tier, seed) or {}
+        inconclusive.extend(r.get('inconclusive', ()))
+        extra_cov = r.get('coverage', {})
+        for fl in r.get('fails', ()):
+            f = findings.match(kf, pid, fl)
+            if f is None:
+                unlisted.append(fl)
+            else:
+                hit.setdefault(f['id'], [f, 0, fl])[1] += 1
     if agg.jobs_failed:
         inconclusive.append('%d of %d worker jobs did not complete: %s'
                             % (agg.jobs_failed, agg.jobs, (agg.notes[0]['note'] or '')[-300:].replace('\n', ' | ')))
@@ -171,13 +185,6 @@ def decide(pid, checker, agg, tier, seed, t0):
         inconclusive.append('fewer than 2 distinct non-trivial cases observed')
     if agg.evals and len(agg.timeouts) > 0.01 * agg.evals:
         inconclusive.append('%d watchdog hits in %d evaluations' % (len(agg.timeouts), agg.evals))
-    fin = getattr(checker, 'finish', None)
-    extra_cov = {}
-    if fin:
-        r = fin(agg, tier, seed) or {}
-        inconclusive.extend(r.get('inconclusive', ()))
-        extra_cov = r.get('coverage', {})
-        unlisted.extend(r.get('fails', ()))
     if not agg.origins and not getattr(checker, 'NO_LIBRARY', False):
         inconclusive.append('no worker reported library module origins')
 
